@@ -1,6 +1,7 @@
 ---------------------------- MODULE MC_StatefulAuto ----------------------------
 EXTENDS StatefulAuto
-CONSTANTS ShapeNames, Steps, DurChoices, MaxTm, MaxPeriods, MaxLevel
+CONSTANTS ShapeNames, Steps, DurChoices, MaxTm, MaxPeriods, MaxLevel,
+          Assign        \* explore state functions that assign the registered variable / their own duration attribute
 VARIABLES clk, periods
 
 Shp(states, first, durOf, nextOf) == [states |-> states, first |-> first, durOf |-> durOf, nextOf |-> nextOf, var0 |-> 1]
@@ -23,7 +24,7 @@ Inputs ==
     {[e |-> "enable"], [e |-> "disable"]}
     \cup {[e |-> "sdw", s |-> s, d |-> d] : s \in {x \in States : Timed(x)}, d \in DurChoices}
     \cup {[e |-> "varw", v |-> 2]}
-    \cup (IF built THEN {[e |-> "iter", tm |-> clk + d, act |-> "none", s |-> None, av |-> w.av, ad |-> w.ad] :
+    \cup (IF built /\ Assign THEN {[e |-> "iter", tm |-> clk + d, act |-> "none", s |-> None, av |-> w.av, ad |-> w.ad] :
                             w \in {[av |-> 3, ad |-> -1], [av |-> -1, ad |-> 1]}, d \in {x \in Steps : x <= 1}}
           ELSE {})
     \cup (IF built THEN {[e |-> "iter", tm |-> clk + d, act |-> a.act, s |-> a.s, av |-> -1, ad |-> -1] :
